@@ -6,6 +6,7 @@ re-mastered: El Torito / isohybrid images from MC_boot behaviours (check_C11's r
 Ridge images with relocation, long names and symlinks from check_C08's case generators.  Each image
 is opened and written again twice (fixed clock) and once with the clock advanced; TLC evaluates
 RemasterIdentical / RemasterIdempotent / RemasterOnlyModDate (spec/ImageChecks.tla)."""
+import json
 import multiprocessing
 import random
 import sys
@@ -69,12 +70,31 @@ def extra(ctx):
     rnd = random.Random('c05/%s' % ctx.seed)
     tasks = []
     stats = []
+    def hyb_key(h):
+        # the hybridisation parameters of the behaviour (geometry, partition offset/entry/type, EFI/Mac):
+        # the sample keeps every one of them (an image of more than 256 cylinders or with a partition
+        # offset is re-mastered differently from the default)
+        specs = [a['act'].get('spec') for a in h['h'] if a['act']['a'] == 'AddIsohybrid']
+        return json.dumps(specs, sort_keys=True)
+
     for (profile, maxlen, cfgs, cap) in (('c11q', 3 if quick else 4, ['plain', 'all', 'jolrr'], 60 if quick else 600),
-                                         ('c12h', 3 if quick else 4, ['plain', 'udf', 'all'], 60 if quick else 600)):
+                                         ('c12h', 3 if quick else 4, ['plain', 'udf', 'all'], 60 if quick else 600),
+                                         ('c12g', 1, ['plain'], 150 if quick else 600)):
         hs, st = L.behaviours(profile, maxlen, 0, 1, seed=ctx.seed)
         stats.append(st)
         if len(hs) > cap:
-            hs = rnd.sample(hs, cap)
+            groups = {}
+            for h in hs:
+                groups.setdefault(hyb_key(h), []).append(h)
+            keys = sorted(groups)
+            for k in keys:
+                rnd.shuffle(groups[k])
+            hs, rnd_ = [], 0
+            while len(hs) < cap and any(len(groups[k]) > rnd_ for k in keys):
+                for k in keys:
+                    if len(groups[k]) > rnd_ and len(hs) < cap:
+                        hs.append(groups[k][rnd_])
+                rnd_ += 1
         for h in hs:
             for c in cfgs:
                 tasks.append((len(tasks), h, c))
